@@ -8,7 +8,9 @@
 #include <etl/_mdspan/extents.hpp>
 #include <etl/_mdspan/is_extents.hpp>
 #include <etl/_mdspan/layout.hpp>
+#include <etl/_mdspan/layout_mapping_alike.hpp>
 #include <etl/_span/span.hpp>
+#include <etl/_type_traits/is_constructible.hpp>
 #include <etl/_type_traits/is_convertible.hpp>
 #include <etl/_type_traits/is_nothrow_constructible.hpp>
 #include <etl/_utility/as_const.hpp>
@@ -59,7 +61,19 @@ public:
     }
 
     template <typename StridedLayoutMapping>
-    constexpr explicit(false /* see description */) mapping(StridedLayoutMapping const&) noexcept;
+        requires(detail::layout_mapping_alike<StridedLayoutMapping>
+                 and is_constructible_v<extents_type, typename StridedLayoutMapping::extents_type>
+                 and StridedLayoutMapping::is_always_unique() and StridedLayoutMapping::is_always_strided())
+    constexpr explicit(false /* see description */) mapping(StridedLayoutMapping const& other) noexcept
+        : _extents(other.extents())
+        , _strides{}
+    {
+        if constexpr (rank > 0) {
+            for (rank_type r{0}; r < rank; ++r) {
+                _strides[r] = static_cast<index_type>(other.stride(r));
+            }
+        }
+    }
 
     constexpr auto operator=(mapping const&) noexcept -> mapping& = default;
 
